@@ -6,7 +6,7 @@
 #   tools/mutant.sh s3 lrv-mac "C05 C07" /verif/seeded/s3/patch.diff
 set -u
 name=$1; crate=$2; props=$3; shift 3
-base=/tmp/mutwork
+base=${MUT_BASE:-/tmp/mutwork}
 wt=$base/$name
 hz=$base/$name-h
 mkdir -p $base
